@@ -88,7 +88,7 @@ lydxml_log_namespace_err(struct lyxml_ctx *xmlctx, const char *prefix, size_t pr
 static LY_ERR
 lydxml_metadata(struct lyd_xml_ctx *lydctx, const struct lysc_node *sparent, struct lyd_meta **meta)
 {
-    LY_ERR ret = LY_SUCCESS;
+    LY_ERR ret = LY_SUCCESS, multi_ret = LY_SUCCESS;
     const struct lyxml_ns *ns;
     struct lys_module *mod;
     const char *name;
@@ -136,7 +136,7 @@ lydxml_metadata(struct lyd_xml_ctx *lydctx, const struct lysc_node *sparent, str
                 /* If LYD_VALIDATE_MULTI_ERROR is set, then continue parsing, because otherwise the parser context
                  * will remain in a bad state, which will cause termination on some assert or undefined behavior.
                  */
-                LY_DPARSER_ERR_GOTO(LY_EVALID, ret = LY_EVALID, lydctx, cleanup);
+                LY_DPARSER_ERR_GOTO(LY_EVALID, ret = multi_ret = LY_EVALID, lydctx, cleanup);
             }
 
             /* skip attr */
@@ -183,7 +183,8 @@ create_meta:
         /* create metadata */
         ret = lyd_parser_create_meta((struct lyd_ctx *)lydctx, NULL, meta, mod, name, name_len, xmlctx->value,
                 xmlctx->value_len, &xmlctx->dynamic, LY_VALUE_XML, &xmlctx->ns, LYD_HINT_DATA, sparent);
-        LY_CHECK_GOTO(ret, cleanup);
+        /* with LYD_VALIDATE_MULTI_ERROR the remaining attributes must be read, the caller continues with the element */
+        LY_DPARSER_ERR_GOTO(ret, multi_ret = ret, lydctx, cleanup);
 
         /* next attribute */
         LY_CHECK_GOTO(ret = lyxml_ctx_next(xmlctx), cleanup);
@@ -191,6 +192,9 @@ create_meta:
 
 cleanup:
     LOG_LOCBACK(1, 0);
+    if (!ret) {
+        ret = multi_ret;
+    }
     if (ret) {
         lyd_free_meta_siblings(*meta);
         *meta = NULL;
